@@ -227,11 +227,22 @@ func cmdAPI(in, out string) error {
 				res.Err = err.Error()
 				break
 			}
-			calls := []string{}
+			type call struct {
+				F    string `json:"f"`
+				Args []int  `json:"args"` // integer literal arguments (others are left out)
+			}
+			calls := []call{}
 			ast.Inspect(f, func(n ast.Node) bool {
 				if c, ok := n.(*ast.CallExpr); ok {
 					if id, ok := c.Fun.(*ast.Ident); ok {
-						calls = append(calls, id.Name)
+						cl := call{F: id.Name, Args: []int{}}
+						for _, a := range c.Args {
+							if bl, ok := a.(*ast.BasicLit); ok && bl.Kind == token.INT {
+								v, _ := strconv.Atoi(bl.Value)
+								cl.Args = append(cl.Args, v)
+							}
+						}
+						calls = append(calls, cl)
 					}
 				}
 				return true
